@@ -128,7 +128,12 @@ def write_cfg(name, vals=("1", "2"), flavours=ALL_FLAVOURS, templates=BASIC_TEMP
 
 
 def tlc_run(module, cfg, **kw):
-    return tlc.run_tlc(module, cfg, specdir=GEN, jvm=["-DTLA-Library=%s" % SPEC], **kw)
+    """One retry: a JVM that is killed or runs out of memory on a busy machine fails again only if the model is at fault."""
+    try:
+        return tlc.run_tlc(module, cfg, specdir=GEN, jvm=["-DTLA-Library=%s" % SPEC], **kw)
+    except MachineryError:
+        time.sleep(2)
+        return tlc.run_tlc(module, cfg, specdir=GEN, jvm=["-DTLA-Library=%s" % SPEC], **kw)
 
 
 # ------------------------------------------------------------------------------------------------------
